@@ -58,22 +58,22 @@ Proof.
   - rewrite get_put_other by auto. reflexivity.
 Qed.
 
-(* metadata / content of one inode inside, not D itself *)
+(* metadata / content of one inode, not D itself: an inode the running operation made
+   (reachable or not — a descriptor outlives the name), or a directory inside *)
 Lemma step_put_keep T b f i n n' :
-  wf f -> b <= f_next f -> reach f i -> i <> D -> get f i = Some n ->
-  (b <= i \/ is_dir f i = true) ->
+  wf f -> b <= f_next f -> i < f_next f -> i <> D -> get f i = Some n ->
+  (b <= i \/ (reach f i /\ is_dir f i = true)) ->
   ktag (i_kind n') = ktag (i_kind n) ->
   (forall p es, i_kind n = KDir p es -> i_kind n' = KDir p es) ->
   step T b f (put f i n').
 Proof.
-  intros W Hb Hr HD Hg Hbi Ht Hk.
+  intros W Hb Hlt HD Hg Hbi Ht Hk.
   assert (Hd := dir_of_put_keep f i n n' Hg Ht Hk).
   assert (He := ents_same f _ Hd).
-  assert (Hlt : i < f_next f) by (apply (reach_lt D f i W Hr)).
   constructor; auto.
   - simpl. lia.
-  - intros j Hj _. apply get_put_other. intro; subst; auto.
-  - intros j Hj Hdj. apply get_put_other. intro; subst. destruct Hbi; [lia|congruence].
+  - intros j Hj Hjb. apply get_put_other. intro; subst. destruct Hbi as [|[? _]]; [lia|auto].
+  - intros j Hj Hdj. apply get_put_other. intro; subst. destruct Hbi as [|[_ ?]]; [lia|congruence].
   - intros j Hj. left. apply (reach_same_ents f _ He). exact Hj.
   - intros j _. destruct (N.eq_dec j i) as [->|Hne].
     + rewrite get_put_same, Hg. simpl. rewrite Ht. reflexivity.
